@@ -770,6 +770,55 @@ macro_rules! for_each_type {
         }
     };
 }
+/// counts beyond the integer range of the element type (2^24 for f32, 2^53 for f64): states of that
+/// size are reached in a few doubling merges, then fed one by one and merged with small states
+fn large_counts(l: &mut Local) {
+    fn go<F: crate::props::fl::Fl>(bits: u32, l: &mut Local) {
+        let mut big = Arithmetic::<F>::new();
+        StatisticsOps::append(&mut big, F::of(1.0)).unwrap();
+        StatisticsOps::append(&mut big, F::of(-1.0)).unwrap();
+        while big.sample_count() < (1usize << bits) - 2 {
+            let need = (1usize << bits) - 2 - big.sample_count();
+            if big.sample_count() <= need {
+                big = big + big;
+            } else {
+                // top up with a smaller power-of-two state
+                let mut part = Arithmetic::<F>::new();
+                StatisticsOps::append(&mut part, F::of(1.0)).unwrap();
+                StatisticsOps::append(&mut part, F::of(-1.0)).unwrap();
+                while part.sample_count() * 2 <= need {
+                    part = part + part;
+                }
+                big = big + part;
+            }
+        }
+        let base = big.sample_count();
+        let mut st = big;
+        for j in 0..6 {
+            StatisticsOps::append(&mut st, F::of(if j % 2 == 0 { 1.0 } else { -1.0 })).unwrap();
+        }
+        let mut chunk = Arithmetic::<F>::new();
+        StatisticsOps::extend(&mut chunk, &vec![F::of(1.0), F::of(-1.0), F::of(1.0), F::of(-1.0)]).unwrap();
+        let merged = st + chunk;
+        l.eval();
+        l.count("large-count states judged (2^24 / 2^53 observations)");
+        l.nontrivial(mix(&[bits as u64, F::IS32 as u64, 0x1a6]));
+        let want = base + 6;
+        if st.sample_count() != want || merged.sample_count() != want + 4 || st.sample_mean().f() != 0.0 {
+            l.violation(
+                format!("Arithmetic<{}>|large-count|count-or-mean-differs-from-multiset", F::TY),
+                format!("after 2^{} observations the state no longer counts (or averages) what it is fed", bits),
+                json!({"what": "large-count"}),
+                json!({"expected_count_after_6_appends": want, "observed": st.sample_count(), "after_merging_4_more": merged.sample_count(), "mean": st.sample_mean().f()}),
+            );
+        }
+    }
+    go::<f32>(24, l);
+    go::<f64>(24, l);
+    go::<f64>(53, l);
+    go::<f32>(31, l);
+}
+
 pub const TYPES: [&str; 10] = ["Arithmetic<f64>", "Arithmetic<f32>", "Geometric<f64>", "Geometric<f32>", "Harmonic<f64>", "Harmonic<f32>", "Paired<f64>", "Unpaired<f64>", "proportion::Stats", "quantile::Stats"];
 
 pub fn run(run: &Arc<Run>) {
@@ -798,10 +847,19 @@ pub fn run(run: &Arc<Run>) {
                 for_each_type!(rc.ty.as_str(), run_reduce, &rc, &shapes, &mut l);
             }
             "rayon" => run_rayon(seed, case["i"].as_u64().unwrap(), &mut l),
+            "order" => crate::props::purity::order_independence("interleaved queries", seed, case["i"].as_u64().unwrap(), &mut l),
+            "large-count" => large_counts(&mut l),
             _ => {}
         }
         run.absorb(l);
         return;
+    }
+    // interleaved queries on different states / confidences never influence one another
+    run.par(run.cfg.by(150u64, 3000), |i, l| crate::props::purity::order_independence("interleaved queries", seed, i, l));
+    {
+        let mut l = run.local();
+        large_counts(&mut l);
+        run.absorb(l);
     }
     // (i)
     let nprog = run.cfg.by(20_000u64, 600_000);
@@ -875,6 +933,8 @@ pub fn run(run: &Arc<Run>) {
         "rayon reductions".into(),
         "exact-data history compared bit-for-bit".into(),
         "compared: empty multiset".into(),
+        "order-independence groups judged".into(),
+        "large-count states judged (2^24 / 2^53 observations)".into(),
     ];
     for t in TYPES {
         req.push(format!("compared:{}", t));
